@@ -590,7 +590,9 @@ func (root *Root) validateDirUse(where string, loc Location, du *DirectiveUse) (
 		// here. A Var is also allowed.
 		if _, ok := av.Value.(Var); !ok {
 			if co, _ := a.Type.(InCoercer); co != nil {
-				if v, err := co.CoerceIn(av.Value); err != nil {
+				if defaultLoop(a.Type, av.Value, map[*InputField]bool{}) {
+					// Reported for the input object. Coercing it would never end.
+				} else if v, err := co.CoerceIn(av.Value); err != nil {
 					errs = append(errs, fmt.Errorf("%w at %d:%d", err, av.line, av.col))
 				} else {
 					// Might as well replace the coerced value since it is really
